@@ -297,6 +297,8 @@ def check_render(case):
                     continue
                 fams = list(lab[gname])
                 if text == "":
+                    if not fams:
+                        continue  # an empty family set (possible for unordered ancestors) is displayed as an empty label
                     parent = inst.oparent[gname]
                     if k == "LEAF" or parent is None or list(lab[parent]) != fams:
                         raise Violation(f"label.{tag}.omitted-although-different-from-parent", observed="", expected=fams, extra={"node": gname})
